@@ -699,11 +699,23 @@ func (f *transformationCallable) Call(argv []reflect.Value) (reflect.Value, erro
 
 	items = arrayify(items)
 
+	// The objects that make up the copy. The pattern can also
+	// select objects that are not part of it (through $$ or a
+	// variable that holds the caller's data).
+	owned := map[uintptr]bool{}
+	collectMaps(obj, owned)
+
 	for i := 0; i < items.Len(); i++ {
 
 		item := jtypes.Resolve(items.Index(i))
 		if !jtypes.IsMap(item) {
 			continue
+		}
+
+		if !owned[item.Pointer()] {
+			// Never write to an object the caller owns:
+			// apply the clauses to a scratch copy.
+			item = copyMap(item)
 		}
 
 		if err := f.updateEntries(item); err != nil {
@@ -718,6 +730,37 @@ func (f *transformationCallable) Call(argv []reflect.Value) (reflect.Value, erro
 	}
 
 	return obj, nil
+}
+
+// collectMaps records the identity of every map in v.
+func collectMaps(v reflect.Value, maps map[uintptr]bool) {
+
+	v = jtypes.Resolve(v)
+
+	switch {
+	case jtypes.IsMap(v):
+		if maps[v.Pointer()] {
+			return
+		}
+		maps[v.Pointer()] = true
+		for _, key := range v.MapKeys() {
+			collectMaps(v.MapIndex(key), maps)
+		}
+	case jtypes.IsArray(v):
+		for i := 0; i < v.Len(); i++ {
+			collectMaps(v.Index(i), maps)
+		}
+	}
+}
+
+// copyMap returns a new map with the entries of v.
+func copyMap(v reflect.Value) reflect.Value {
+
+	res := reflect.MakeMapWithSize(v.Type(), v.Len())
+	for _, key := range v.MapKeys() {
+		res.SetMapIndex(key, v.MapIndex(key))
+	}
+	return res
 }
 
 func (f *transformationCallable) validateArgs(argv []reflect.Value) error {
